@@ -215,7 +215,7 @@ func (r *Runner) Exec(op model.Op) *Obs {
 			nid = op.NodeID
 		}
 		o.Predict = "accept"
-		r.request(o, p, model.AssocSetup(op.Seq, nid))
+		r.request(o, p, model.AssocSetupTS(op.Seq, nid, op.TSOffset))
 		if o.Accepted {
 			p.Assoc = true
 			p.NodeID = nid
